@@ -33,6 +33,8 @@ type Gen struct {
 	verifDir  string
 	tier      string
 	funcIndex map[string]*ssa.Function
+	declInfos []declInfo
+	declNames map[string]bool
 }
 
 func LoadGen(repoDir, verifDir string, patterns []string, overlay map[string][]byte) (*Gen, error) {
